@@ -277,6 +277,23 @@ def corr_damage(pid, tier, seed):
             "extra_engine_flips": flips}
 
 
+def corr_simple(pid, tier, seed, gen, nq, nt, oracle_props, rule, dflags="-noevents"):
+    rundir = _rundir(pid)
+    scen = corpus_scenarios(pid)
+    s, hist = gen_scripts(gen, seed, nq if tier == "quick" else nt, rundir)
+    scen.extend(s)
+    for i, sc in enumerate(scen):
+        sc[0] = "S %d" % i
+    r = run_scripts(pid, rundir, scen, dflags=dflags)
+    idx = {str(i): sc for i, sc in enumerate(scen)}
+    oracle = [o for o in r["oracle"] if o.split()[1] in oracle_props]
+    sample = scen[len(scen) // 2] if scen else []
+    return {"evaluations": len(scen), "distinct_nontrivial": nontrivial_count(scen, lambda sc: len(sc) > 6),
+            "rule": rule + "; non-trivial = more than six operations; distinct by md5",
+            "samples": [sample[:30]], "hist": hist, "observations_compared": r["checked"],
+            "mismatches": r["mismatches"], "oracle": oracle, "errors": r["errors"], "scen_index": idx}
+
+
 def corr_iter(pid, tier, seed):
     rundir = _rundir(pid)
     scen = corpus_scenarios(pid)
@@ -363,6 +380,13 @@ REGISTRY = {
         "assumptions": ["container/heap is abstracted by its contract (items[0] is a minimum of the live cursors after Init/Push/Pop), google/btree, huandu/skiplist and the sorted slice of the hash-map iterator by their ordered-set contracts",
                         "the assignment of keys to shards is an arbitrary function in the theorem (xxhash in the implementation, another function in the driver: the observables do not depend on it)",
                         "every Seek target lies at or ahead of the cursor in iteration order, as the property requires; backward seeks are not generated"],
+    },
+    "C16": {
+        "corr": lambda tier, seed: corr_simple("C16", tier, seed, "lockgen", 12, 300, ["C16", "C02", "C01"],
+                                               "harness/vh lockgen: second Opens of an open directory from the same process and from child processes (different configurations), Opens made to fail by a corrupt data file followed by a regular Open, races of 2-5 child processes on fresh and used directories (an owner-marker file detects two simultaneous holders), byte-level snapshot of the directory before and after every rejected Open; results compared with the lock-table model"),
+        "assumptions": ["flock(2) through gofrs/flock: an exclusive advisory lock per open file description, released when the descriptor is closed or the process dies (OS contract)",
+                        "the lock-table model abstracts Open to: lock attempt, initialisation that may fail, Close; that every exit path of the real Open releases or keeps the lock accordingly is checked on the paths extracted from the source by translator T3 (gen/GenOpenPaths.v) by a theorem evaluated on every run",
+                        "interleavings of processes are exercised by the race scenarios, not enumerated"],
     },
     "C12": {
         "corr": lambda tier, seed: corr_damage("C12", tier, seed),
